@@ -73,7 +73,7 @@ type Event struct {
 	Fault   string `json:"fault,omitempty"`
 	Joined  bool   `json:"joined,omitempty"` // line arrived in one packet with the previous line
 	Reload  string `json:"reload,omitempty"` // IOS reload state after the command: none | pending
-	T       int64  `json:"t"`                // monotonic nanoseconds
+	T       int64  `json:"t"`                // wall clock nanoseconds
 }
 
 func LoadSpec(file string) (*Spec, error) {
